@@ -8,21 +8,21 @@ import Rscp.Gen.Leaves
 namespace Rscp.Tie.Writer
 
 /-- source of `rscp_write` is unchanged -/
-theorem shape_rscp_write : Rscp.Gen.Shape.rscp_write = "72e9633c18dcdde7569c0457e012a349" := rfl
+theorem shape_rscp_write : Rscp.Gen.Shape.rscp_write = "9d3603e9842ee19bc99348f1cc9aa329" := rfl
 /-- source of `rscp_writeMessage` is unchanged -/
-theorem shape_rscp_writeMessage : Rscp.Gen.Shape.rscp_writeMessage = "5a897f91aaa51b5935bca483f4ace79d" := rfl
+theorem shape_rscp_writeMessage : Rscp.Gen.Shape.rscp_writeMessage = "8fc46ba134c05ce9e2675bb9e295f694" := rfl
 /-- source of `rscp_writeFrame` is unchanged -/
-theorem shape_rscp_writeFrame : Rscp.Gen.Shape.rscp_writeFrame = "f89d6df9e9359839d6132c58522dde2d" := rfl
+theorem shape_rscp_writeFrame : Rscp.Gen.Shape.rscp_writeFrame = "d90a8976a533d757dddfb3274af6ddad" := rfl
 /-- source of `rscp_Write` is unchanged -/
-theorem shape_rscp_Write : Rscp.Gen.Shape.rscp_Write = "1a5c27a8dc377d03446d72105346f5e2" := rfl
+theorem shape_rscp_Write : Rscp.Gen.Shape.rscp_Write = "05a2264437ccca411034c7f364ec58eb" := rfl
 /-- source of `rscp_Message_valueSize` is unchanged -/
-theorem shape_rscp_Message_valueSize : Rscp.Gen.Shape.rscp_Message_valueSize = "310a697c2a0b85ff65fac075a454d8d7" := rfl
+theorem shape_rscp_Message_valueSize : Rscp.Gen.Shape.rscp_Message_valueSize = "aa82e83ba76fbe98ed848c85bad3d0ac" := rfl
 /-- source of `rscp_messagesSize` is unchanged -/
-theorem shape_rscp_messagesSize : Rscp.Gen.Shape.rscp_messagesSize = "48bff8cf80205650148ebcfe81ff5625" := rfl
+theorem shape_rscp_messagesSize : Rscp.Gen.Shape.rscp_messagesSize = "c2b308447ce80f7c76901844f1f75113" := rfl
 /-- source of `rscp_DataType_length` is unchanged -/
-theorem shape_rscp_DataType_length : Rscp.Gen.Shape.rscp_DataType_length = "255ffd13f6a735b6a90e61662336bcc6" := rfl
+theorem shape_rscp_DataType_length : Rscp.Gen.Shape.rscp_DataType_length = "e95e4ea52c548bbb6c125bd79826b973" := rfl
 /-- source of `rscp_dereferencePtr` is unchanged -/
-theorem shape_rscp_dereferencePtr : Rscp.Gen.Shape.rscp_dereferencePtr = "b3c077c508d678a12ca89c9c0ab3b549" := rfl
+theorem shape_rscp_dereferencePtr : Rscp.Gen.Shape.rscp_dereferencePtr = "847bfdd6f0940554db61860ee0180dac" := rfl
 /-- leaf `writeFrame_ctrlBase`: source text and argument list are unchanged -/
 theorem leaf_writeFrame_ctrlBase_src : Rscp.Gen.Leaf.writeFrame_ctrlBase_src = "(RSCP_CTRL_BIT_MASK_VERSION & (uint16(RSCP_VERSION_1_0) << RSCP_FLAG_BIT_VERSION))" := rfl
 theorem leaf_writeFrame_ctrlBase_args : Rscp.Gen.Leaf.writeFrame_ctrlBase_args = [] := rfl
